@@ -806,11 +806,15 @@ func init() {
 		StallSeconds: 40,
 		Setup: func(c *fw.Ctx) error {
 			c08Digest = stateDigest()
+			datasegMark()
 			return nil
 		},
 		Final: func(c *fw.Ctx) []fw.Outcome {
 			if d := stateDigest(); d != c08Digest {
 				return []fw.Outcome{fw.Bad(2, nil, "the package state digest changed while reading and writing hostile inputs (%s -> %s): a call left mutable package state behind", c08Digest, d)}
+			}
+			if o := datasegVerdict("while reading and writing hostile inputs"); o.Status == fw.Violated {
+				return []fw.Outcome{o}
 			}
 			return nil
 		},
